@@ -212,14 +212,24 @@ theorem dropTo_suffix (x : Nat) : ∀ (l : List Nat), ∃ pre, l = pre ++ dropTo
       exact ⟨a :: pre, by rw [List.cons_append, ← h]⟩
 
 theorem superFrameAt_spec {P : Prog} {r : Nat} {frm : Option Nat} {ctx : List Nat} {fr : Frame}
-    (h : superFrameAt P r (superCtx frm ctx) = some fr) :
+    (h : superFrameAt P r (superCtx P frm ctx) = some fr) :
     ∃ pre hd pre2 d t, ctx = pre ++ hd :: (pre2 ++ d :: t) ∧ fr = .init r d (d :: t) := by
-  have hsuf : ∃ pre, ctx = pre ++ superCtx frm ctx := by
+  have hsuf : ∃ pre, ctx = pre ++ superCtx P frm ctx := by
     cases frm with
     | none => exact ⟨[], rfl⟩
-    | some x => exact dropTo_suffix x ctx
+    | some x =>
+      cases ctx with
+      | nil => exact ⟨[], rfl⟩
+      | cons hh tt =>
+        simp only [superCtx]
+        cases P.superMap.lookup (hh, x) with
+        | none => exact dropTo_suffix x (hh :: tt)
+        | some r =>
+          cases r with
+          | none => exact ⟨hh :: tt, by simp⟩
+          | some d => exact dropTo_suffix d (hh :: tt)
   obtain ⟨pre, hpre⟩ := hsuf
-  generalize superCtx frm ctx = ctx' at h hpre
+  generalize superCtx P frm ctx = ctx' at h hpre
   cases ctx' with
   | nil => simp [superFrameAt] at h
   | cons hd tl =>
